@@ -51,10 +51,10 @@ PROPERTIES = {
     "C13": {
         "level": "exploration",
         "classes": ["MXCSR_CHANGED", "DIGEST_MISMATCH"] + CRASH,
-        "rule": HIST_RULE + "; every hash/first/next/last is entered under a generated MXCSR (rounding x FTZ x DAZ x exception masks x sticky flags); "
-                "oracle: MXCSR after single-call hash == MXCSR before, digests == fresh-object model computed under the default environment; "
+        "rule": HIST_RULE + "; every hash/first/next/last is entered under a generated MXCSR (rounding x FTZ x DAZ x exception masks x sticky flags) and a derived x87 control word (precision and rounding control); "
+                "oracle: MXCSR and x87 control word after single-call hash == before, digests == fresh-object model computed under the default environment; "
                 "the threads batches run 2-4 simulated threads hashing at the same time (switches at the scheduling points inside a hash), each call under its own MXCSR",
-        "assumptions": ["only hash calls are perturbed (the property says nothing about other calls)", "MXCSR is the x86-64 FP control/status word the library touches; x87 control word is not used by the library",
+        "assumptions": ["only hash calls are perturbed (the property says nothing about other calls)", "MXCSR and the x87 control word together are the x86-64 floating-point environment (what fegetenv saves); the x87 status word and tag word are not perturbed",
                         "model digests are computed under MXCSR=0x1F80"],
         "expected_probes": ["env_attached", "batch_next", "final_fprc_nonzero"],
         "exhaustive": {"thorough": True},
